@@ -1872,6 +1872,9 @@ def shrink(scn, fails):
 
 
 def handle(chk, runner, scn, record=True):
+    if "hist" in scn:
+        return handle_history(chk, runner, scn, record)
+
     def fails_with(sig):
         def f(c):
             r = run_scenario(c, runner.ask)
@@ -1941,6 +1944,386 @@ def exhaustive_scenarios(rng, max_cs):
                     yield {"left": left, "steps": [{"right": right, "map": ms, "keep_port": True}]}
 
 
+
+# ------------------------------------------------------------------------------------------------
+# extension 3: the life of a processor (Model/C10Hist.lean) — construction, add_herald / add_port / remove_port /
+# add(mode, Detector) / add(mapping, obj) in any order, compared call by call with the model's state machine
+# ------------------------------------------------------------------------------------------------
+SIG_M0 = "add-all-modes-heralded-resets-mode-count"
+HIST_SIZES = {"RAW": 1, "DUAL_RAIL": 2}
+
+
+def observe_hist(p):
+    """public bookkeeping of a processor (no matrix): raises if a public accessor raises"""
+    cs = p.circuit_size
+    span = cs + 3
+    o = {"m": p.m, "cs": cs,
+         "conn": [bool(p.experiment.is_mode_connectible(k)) for k in range(cs)],
+         "heralds": [[int(k), int(v)] for k, v in p.heralds.items()],
+         "dets": [det_name(d) for d in p.detectors]}
+    for side, getter in (("inp", p.get_input_port), ("outp", p.get_output_port)):
+        o[side] = sorted([x[0], x[1], canon_name(x[2]), x[3], x[4]] for x in ports_of(p, getter, span))
+    for key, attr in (("in_names", "in_port_names"), ("out_names", "out_port_names")):
+        try:
+            o[key] = [canon_name(n) for n in getattr(p, attr)]
+        except IndexError:
+            o[key] = None
+    return o
+
+
+def hist_apply(p, op):
+    import perceval as pcvl
+    from perceval.components import Port, PortLocation
+    from perceval.utils import Encoding
+    k = op["op"]
+    if k == "herald":
+        p.add_herald(op["mode"], op["exp"], op.get("name"))
+    elif k == "port":
+        p.add_port(op["mode"], Port(Encoding[op["enc"]], op["name"]), PortLocation[op["loc"]])
+    elif k == "rmport":
+        p.remove_port(op["mode"], PortLocation[op["loc"]])
+    elif k == "det":
+        p.add(op["mode"], pcvl.Detector.threshold() if op["kind"] == "threshold" else pcvl.Detector.pnr())
+    elif k == "add":
+        p.add(py_mapping(op["map"]), op["_obj"], keep_port=op.get("keep_port", True))
+    else:
+        raise ValueError(k)
+
+
+def hist_lean_op(op, R):
+    k = op["op"]
+    if k == "herald":
+        return {"op": "herald", "mode": op["mode"], "exp": op["exp"], "name": op.get("name")}
+    if k == "port":
+        return {"op": "port", "mode": op["mode"], "size": HIST_SIZES[op["enc"]], "name": op["name"], "loc": op["loc"]}
+    if k == "rmport":
+        return {"op": "rmport", "mode": op["mode"], "loc": op["loc"]}
+    if k == "det":
+        return {"op": "det", "mode": op["mode"], "name": "threshold" if op["kind"] == "threshold" else "pnr"}
+    rps = op["right"].get("ps_ast") if op["right"]["kind"] == "proc" else None
+    side = {"comp": R["comp"], "m": R["m"], "cs": R["cs"], "conn": R.get("conn", [True] * R["cs"]),
+            "heralds": R["heralds"], "dets": R["dets"], "outp": R["outp"], "inp": R["inp"],
+            "out_names": R.get("raw_out_names") or [], "in_names": R.get("raw_in_names") or [], "ps": rps}
+    return {"op": "add", "right": side, "map": op["map"], "keep_port": op.get("keep_port", True)}
+
+
+def hist_model_state(st):
+    out = {"m": st["m"], "cs": st["cs"], "conn": st["conn"], "heralds": st["heralds"],
+           "dets": hist_det_canon(st),
+           "in_names": st["in_names"], "out_names": st["out_names"]}
+    for side in ("inp", "outp"):
+        out[side] = sorted([x[0], x[1], canon_name(x[2]), x[3], x[4]] for x in st[side])
+    return out
+
+
+def hist_det_canon(o):
+    """detector names: the real objects are named by their class/name, the model by the kind asked for"""
+    return [None if d is None else ("threshold" if "hreshold" in d else "pnr") for d in o["dets"]]
+
+
+def run_history(scn, ask, on_event=None):
+    """-> failure tuple (kind, sig, what) or None.  One case = one processor life."""
+    import perceval as pcvl
+    h = scn["hist"]
+    ev = on_event or (lambda *_: None)
+    try:
+        p = pcvl.Processor("SLOS", h["m"]) if h["m"] is not None else pcvl.Processor("SLOS")
+    except Exception as e:  # noqa
+        return ("broken", "hist-construction", f"Processor('SLOS', {h['m']}) raised {type(e).__name__}: {e}")
+    ops, lean_ops, objs = h["ops"], [], []
+    # the objects to add are built (and observed) first: the model needs their public state
+    for op in ops:
+        if op["op"] == "add":
+            try:
+                obj = build_right(op["right"])
+                R = observe_right(obj)
+            except Exception as e:  # noqa
+                raise GenInvalid(f"right-hand side cannot be built: {type(e).__name__}") from e
+            if R.get("has_ps") and op["right"].get("ps_ast") is None:
+                raise GenInvalid("right post-selection without a known AST")
+            objs.append((obj, R))
+            lean_ops.append(hist_lean_op(op, R))
+        else:
+            objs.append((None, None))
+            lean_ops.append(hist_lean_op(op, None))
+    rep = ask({"op": "hist", "fix_m0": True, "m": h["m"], "ops": lean_ops})
+    if "trace" not in rep:
+        return ("broken", "hist-driver", f"the driver refused the history: {rep}")
+    trace = rep["trace"]
+    try:
+        cur = observe_hist(p)
+    except Exception as e:  # noqa
+        return ("broken", "hist-observe", f"a fresh processor cannot be observed: {type(e).__name__}: {e}")
+
+    def diff(real, model, when):
+        real = dict(real, dets=hist_det_canon(real))
+        mod = hist_model_state(model)
+        for key in ("m", "cs", "conn", "heralds", "dets", "inp", "outp", "in_names", "out_names"):
+            if real[key] != mod[key]:
+                return ("broken", "hist-state-" + key,
+                        f"{when}: {key} of the real processor is {real[key]}, the model of the bookkeeping says {mod[key]}")
+        return None
+
+    bad = diff(cur, trace[0], "after construction")
+    if bad:
+        return bad
+    for i, op in enumerate(ops):
+        when = f"after call {i} ({op['op']}) of {describe_hist(h, i)}"
+        obj, R = objs[i]
+        before = cur
+        reserved = {x[0] for x in before["heralds"]} | {k for k, d in enumerate(before["dets"]) if d is not None}
+        err = None
+        try:
+            hist_apply(p, dict(op, _obj=obj))
+        except Exception as e:  # noqa: the class is the observable
+            err = type(e).__name__
+        ev("op-" + op["op"])
+        if op["op"] == "add":
+            ev("add-" + ("comp" if R["comp"] else "proc") + ("-m0" if before["m"] == 0 and before["cs"] > 0 else "")
+               + ("-unset" if before["cs"] == 0 else ""))
+        model = trace[i + 1] if i + 1 < len(trace) else None
+        if op["op"] == "det" and before["m"] == 0 and before["cs"] > 0:
+            # a detector on a mode of a processor all of whose modes are heralds: accepted or not, the call must not
+            # change the number of modes, the heralds or the availability of any mode
+            try:
+                now = observe_hist(p)
+            except Exception as e:  # noqa
+                now = f"unobservable ({type(e).__name__})"
+            if isinstance(now, str) or any(now[k] != before[k] for k in ("m", "cs", "conn", "heralds")):
+                chg = now if isinstance(now, str) else {k: (before[k], now[k]) for k in ("m", "cs", "conn", "heralds")
+                                                         if before[k] != now[k]}
+                return ("violation", SIG_M0,
+                        f"{when}: all {before['cs']} modes are heralds (m = 0); add({op['mode']}, Detector) "
+                        f"({'accepted' if err is None else err}) changed the processor: {chg}")
+        if op["op"] == "add" and before["m"] == 0 and before["cs"] > 0:
+            # every mode of the processor is a herald: no mode is available, so the add must be refused and, like any
+            # refused add, leave the processor as it was (judged on the real code alone)
+            try:
+                now = observe_hist(p)
+            except Exception as e:  # noqa
+                now = f"unobservable ({type(e).__name__})"
+            if err is None:
+                return ("violation", SIG_M0,
+                        f"{when}: all {before['cs']} modes are heralds ({before['heralds']}, m = 0), no mode is available, "
+                        f"yet the add is accepted; the processor is now {now if isinstance(now, str) else {k: now[k] for k in ('m', 'cs', 'conn', 'heralds')}}")
+            if now != before:
+                chg = now if isinstance(now, str) else {k: (before[k], now[k]) for k in before if before[k] != now[k]}
+                return ("violation", SIG_M0,
+                        f"{when}: all {before['cs']} modes are heralds (m = 0); the add is refused ({err}) but the "
+                        f"processor was changed by the refused call: {chg}")
+        if err is not None:
+            ev("hist-error-" + err)
+            if model is None or model.get("err") != err:
+                # a refusal the model does not predict: is the call legal by the property's reading?
+                return ("broken", "hist-error-class",
+                        f"{when}: the real call raised {err}, the model says "
+                        f"{model.get('err', 'accepted') if model else 'nothing (ended earlier)'}")
+            return None
+        # ---- accepted by the real code: judged directly first (independent of the model)
+        try:
+            cur = observe_hist(p)
+        except Exception as e:  # noqa
+            return ("violation", "hist-unusable-after-accepted-call",
+                    f"{when}: the call was accepted but the processor cannot be observed any more "
+                    f"({type(e).__name__}: {str(e)[:100]}); before: m={before['m']}, circuit_size={before['cs']}, "
+                    f"heralds={before['heralds']}")
+        if op["op"] == "add":
+            named = named_left_modes(op["map"], before, R)
+            hit = sorted(k for k in named if k in reserved)
+            if hit:
+                return ("violation", "add-on-reserved-mode-accepted" + ("-m0" if before["m"] == 0 else ""),
+                        f"{when}: Processor.add({py_mapping(op['map'])}, …) names mode(s) {hit}, reserved by heralds "
+                        f"{before['heralds']} / detectors {before['dets']} (m = {before['m']}), yet it is accepted")
+            want_cs = before["cs"] + len(R["heralds"]) if before["cs"] > 0 else None
+            if want_cs is not None and cur["cs"] != want_cs:
+                return ("violation", "hist-circuit-size",
+                        f"{when}: circuit_size went from {before['cs']} to {cur['cs']} although the added object brings "
+                        f"{len(R['heralds'])} heralded modes")
+        elif cur["cs"] != before["cs"] and before["cs"] > 0:
+            return ("violation", "hist-circuit-size", f"{when}: circuit_size changed from {before['cs']} to {cur['cs']}")
+        for hm, _ in cur["heralds"]:
+            if hm < len(cur["conn"]) and cur["conn"][hm]:
+                return ("violation", "herald-mode-connectible",
+                        f"{when}: mode {hm} is listed in heralds {cur['heralds']} but is_mode_connectible({hm}) is True")
+        if model is None or "err" in model:
+            return ("broken", "hist-error-class",
+                    f"{when}: accepted by the real code, the model says {model.get('err') if model else 'nothing'}")
+        bad = diff(cur, model, when)
+        if bad:
+            return bad
+        if cur["m"] == 0 and cur["cs"] > 0:
+            ev("hist-all-heralded")
+    ev("hist-completed")
+    return None
+
+
+def describe_hist(h, upto):
+    def d(op):
+        if op["op"] == "add":
+            return f"add({py_mapping(op['map'])}, {op['right']['kind']})"
+        return op["op"] + "(" + ",".join(str(op[k]) for k in ("mode", "exp", "enc", "loc", "kind") if k in op) + ")"
+    return f"Processor('SLOS'{'' if h['m'] is None else ', ' + str(h['m'])}) ; " + " ; ".join(d(o) for o in h["ops"][:upto + 1])
+
+
+def gen_history(rng):
+    """a processor life: mostly legal calls (a shadow of the expected state steers the choice), ~15% arbitrary ones;
+    ~30% of the lives declare EVERY mode a herald before going on"""
+    m0 = None if rng.random() < 0.1 else rng.randint(1, 4)
+    cs = m0 or 0
+    her, det, pin, pout = set(), set(), {}, {}
+    names = NAMES[:]
+    rng.shuffle(names)
+    ops = []
+    all_her = rng.random() < 0.3 and m0 is not None
+
+    def free_modes():
+        return [k for k in range(cs) if k not in her and k not in det]
+
+    def add_op():
+        nonlocal cs
+        fm = free_modes()
+        kind = rng.choice(["leaf", "leaf", "proc"])
+        if kind == "leaf":
+            right = {"kind": "leaf", "leaf": gens.gen_leaf(rng, max(1, min(2, len(fm) or 2)), ("BS", "PS", "PERM"))}
+        else:
+            right = gen_right(rng, max(1, min(2, len(fm) or 1)), want="proc")
+        n, hs = right_shape(right)
+        if rng.random() < 0.15 or len(fm) < n:
+            ms = rng.choice([{"form": "int", "v": rng.randint(0, max(0, cs))},
+                             {"form": "list", "v": [rng.randint(0, max(0, cs)) for _ in range(n)]}])
+        elif rng.random() < 0.5:
+            starts = [b for b in range(cs) if all(b + i in fm for i in range(n))]
+            ms = {"form": "int", "v": rng.choice(starts)} if starts else {"form": "list", "v": rng.sample(fm, n)}
+        else:
+            ms = {"form": "list", "v": rng.sample(fm, n)}
+        ops.append({"op": "add", "right": right, "map": ms, "keep_port": rng.random() < 0.7})
+        if cs == 0:   # the number of modes defaults from the first add
+            cs = (n + ms["v"]) if ms["form"] == "int" else (max(ms["v"]) + 1 if ms["v"] else 0)
+        for i in range(len(hs)):
+            her.add(cs + i)
+        cs += len(hs)
+
+    if all_her:
+        order = list(range(cs))
+        rng.shuffle(order)
+        for k in order:
+            ops.append({"op": "herald", "mode": k, "exp": rng.randint(0, 1),
+                        "name": None if rng.random() < 0.6 else "h" + str(k)})
+            her.add(k)
+    for _ in range(rng.randint(1, 5)):
+        r = rng.random()
+        wild = rng.random() < 0.15
+        if cs == 0 and not wild:
+            if rng.random() < 0.5:
+                k = rng.randint(0, 2)
+                ops.append({"op": "det", "mode": k, "kind": rng.choice(["threshold", "pnr"])})
+                cs = k + 1
+                det.add(k)
+            else:
+                add_op()
+            continue
+        if r < 0.22:
+            cands = [k for k in range(cs) if k not in pin and k not in pout and k not in her]
+            if wild or not cands:
+                k = rng.randint(0, cs + 1)
+            else:
+                k = rng.choice(cands)
+            ops.append({"op": "herald", "mode": k, "exp": rng.randint(0, 1) if not (wild and rng.random() < 0.2) else 2,
+                        "name": None if rng.random() < 0.6 else "h" + str(len(ops))})
+            her.add(k)
+            pin[k] = pout[k] = "H"
+        elif r < 0.42 and names:
+            enc = rng.choice(["RAW", "RAW", "DUAL_RAIL"])
+            w = HIST_SIZES[enc]
+            loc = rng.choice(["INPUT", "OUTPUT", "IN_OUT"])
+            cands = [k for k in range(max(0, cs - w + 1))
+                     if all((x not in pin or loc == "OUTPUT") and (x not in pout or loc == "INPUT") for x in range(k, k + w))]
+            k = rng.randint(0, cs) if (wild or not cands) else rng.choice(cands)
+            nm = names.pop()
+            ops.append({"op": "port", "mode": k, "enc": enc, "name": nm, "loc": loc})
+            for x in range(k, k + w):
+                if loc != "OUTPUT":
+                    pin[x] = nm
+                if loc != "INPUT":
+                    pout[x] = nm
+        elif r < 0.55:
+            both = [k for k in pin if k in pout and pin[k] != "H"]
+            loc = rng.choice(["INPUT", "OUTPUT", "IN_OUT"])
+            pool = both if loc == "IN_OUT" else [k for k in (pin if loc == "INPUT" else pout)
+                                                 if (pin if loc == "INPUT" else pout)[k] != "H"]
+            if rng.random() < 0.12:
+                pool = [k for k in her if k in pout]      # removing a herald port: allowed by the code
+            k = rng.randint(0, cs) if (wild or not pool) else rng.choice(sorted(pool))
+            ops.append({"op": "rmport", "mode": k, "loc": loc})
+            for tbl in ([pin] if loc == "INPUT" else [pout] if loc == "OUTPUT" else [pin, pout]):
+                nm = tbl.get(k)
+                for x in [x for x in tbl if tbl[x] == nm and nm is not None and abs(x - k) <= 1]:
+                    del tbl[x]
+        elif r < 0.68:
+            fm = [k for k in range(cs) if k not in det]
+            k = rng.randint(0, cs) if (wild or not fm) else rng.choice(fm)
+            ops.append({"op": "det", "mode": k, "kind": rng.choice(["threshold", "pnr"])})
+            det.add(k)
+        else:
+            add_op()
+    if all_her and not any(o["op"] == "add" for o in ops):
+        add_op()
+    return {"hist": {"m": m0, "ops": ops}}
+
+
+def hist_sig(scn):
+    h = scn["hist"]
+    return json.dumps([h["m"]] + [[o["op"], o.get("mode"), o.get("loc"),
+                                   json.dumps(o.get("map"), sort_keys=True) if o["op"] == "add" else None]
+                                  for o in h["ops"]])
+
+
+def shrink_history(scn, fails):
+    cur = copy.deepcopy(scn)
+    budget = 60
+    changed = True
+    while changed and budget > 0:
+        changed = False
+        for i in range(len(cur["hist"]["ops"])):
+            c = copy.deepcopy(cur)
+            del c["hist"]["ops"][i]
+            budget -= 1
+            try:
+                ok = fails(c)
+            except Exception:
+                ok = False
+            if ok:
+                cur, changed = c, True
+                break
+    return cur
+
+
+def handle_history(chk, runner, scn, record=True):
+    def ev(name):
+        if record:
+            chk.branch(name)
+    res = run_history(scn, runner.ask, ev)
+    if record:
+        h = scn["hist"]
+        chk.case(hist_sig(scn), nontrivial=len(h["ops"]) >= 3 and any(o["op"] == "add" for o in h["ops"]),
+                 sample={"m": h["m"], "ops": [o["op"] for o in h["ops"]]})
+        chk.count("history_length", len(h["ops"]))
+    if res is not None:
+        kind, sig, what = res
+        if [kind, sig] in runner.shrunk:
+            chk.fail(kind, sig, what, {"scenario": scn})
+            return res
+        runner.shrunk.append([kind, sig])
+
+        def fails(c):
+            r = run_history(c, runner.ask)
+            return r is not None and r[1] == sig
+        small = shrink_history(scn, fails)
+        r2 = run_history(small, runner.ask)
+        chk.fail(kind, sig, (r2[2] if r2 is not None and r2[1] == sig else what), {"scenario": small})
+    return res
+
+
 def load_corpus():
     out = []
     for path in sorted(glob.glob(os.path.join(core.VERIF, "corpus", "C10", "*.json"))):
@@ -1972,7 +2355,12 @@ def run(chk: core.Check):
                 "accepted add the ports of the result (both sides: start, size, name, herald, expected) are compared with the "
                 "model's and judged directly (no overlap; a new port sits on the modes wired to a port of that name), the "
                 "mode the carried-over post-selection reads for each right-hand mode is compared with the wiring, and the "
-                "model of in_port_names / out_port_names is compared on the real port lists; distinct = distinct (sizes, right shape, mapping) "
+                "model of in_port_names / out_port_names is compared on the real port lists; plus processor LIVES: Processor('SLOS', m) "
+                "or Processor('SLOS'), then 1-8 calls among add_herald / add_port / remove_port / add(mode, Detector) / add(int or "
+                "list mapping, component or processor), ~15% with arbitrary arguments, ~30% declaring every mode a herald first; "
+                "after every call m, circuit_size, is_mode_connectible, heralds, detectors, ports and port names (or the exception "
+                "class) are compared with the state machine of Model/C10Hist.lean, and reserved modes / circuit_size / observability "
+                "are judged directly; distinct = distinct (sizes, right shape, mapping) "
                 "signatures; non-trivial = a non-consecutive or non-monotone mapping of >= 2 modes")
     chk.assumptions = [
         "matrices of the left processor and of the added object are taken from their own compute_unitary() "
@@ -1984,6 +2372,9 @@ def run(chk: core.Check):
         "oracle — the documentation is silent, the code keeps the last value — model and code are compared with each other",
         "an int key with a list / port-name value is read as that one left mode (the documented 'keys and values can be "
         "integers or strings'); the code as found ignores such an item (fixes/C10-intkey-skipped.diff)",
+        "processor lives: modes given to add_herald / add_port / remove_port / detectors are non-negative, every add_port "
+        "brings a fresh Port object; a life ends at the first exception (the state a failing call leaves behind is judged "
+        "only when every mode is a herald: a refused add must then leave the processor unchanged)",
         "the simp-* branch counters classify the inserted segment from the public component list by tracing light "
         "paths; they only show that the generator reaches the shapes, the verdict never depends on them",
     ]
@@ -2003,7 +2394,10 @@ def run(chk: core.Check):
                              "dict-int-name", "dict-left-mode-twice"] + ["dictfault-" + f for f in DICT_FAULTS] + \
                             ["port-inp-reattached", "port-outp-reattached", "port-inp-dropped-crossed",
                              "port-outp-dropped-crossed", "port-inp-dropped-occupied", "port-outp-dropped-occupied",
-                             "herald-input-port", "ps-merged", "ps-runtime-refused"]
+                             "herald-input-port", "ps-merged", "ps-runtime-refused"] + \
+                            ["op-herald", "op-port", "op-rmport", "op-det", "op-add", "add-comp", "add-proc",
+                             "add-comp-m0", "add-comp-unset", "hist-all-heralded", "hist-completed",
+                             "hist-error-UnavailableModeException", "hist-error-IndexError"]
     chk.lean = core.LeanDriver("C10")
     runner = Runner(chk)
     rng = chk.rng
@@ -2060,6 +2454,17 @@ def run(chk: core.Check):
                     handle(chk, runner, st["right"]["scn"])
             handle(chk, runner, scn)
             chk.count("generator", "simplifier-family")
+        except core.LeanError:
+            raise
+        except GenInvalid:
+            chk.count("generator", "invalid-construction")
+    # the life of a processor: construction, add_herald / add_port / remove_port / detectors / adds in any order,
+    # compared call by call with the state machine of Model/C10Hist.lean
+    n_h = chk.pick(500, 3000)
+    for i in range(n_h):
+        try:
+            handle(chk, runner, gen_history(rng))
+            chk.count("generator", "history-family")
         except core.LeanError:
             raise
         except GenInvalid:
